@@ -91,3 +91,21 @@ def cfgs_ok(cfgs):
                  "self.device_configurations[i].pipeline_stage == old(old(self.device_configurations)[i].pipeline_stage) and "
                  "filtered(self.device_configurations[i].sharding_specs, old(old(self.device_configurations)[i].sharding_specs), value)))"],
         modifies=["Node.device_configurations", f"{LCFG.cls}.$v", f"{LSPEC.cls}.$v"] + CF))
+
+    add_shard_effect_target(eng)
+
+
+def add_shard_effect_target(eng):
+    """Node.shard / set_pipeline_stage: `invalid annotation requests ... are rejected without effect` - every ValueError exit
+    precedes the only store (`self.device_configurations = ...`) and every call that could write annotations: effect
+    obligation in lenient mode (the merge logic itself stays bounded)."""
+    def setup(e, p, env):
+        e.lenient = True
+    for meth, params in (("shard", dict(value=TRef("Value"), configuration=TRef("ModelConfiguration"), axis=INT, num_shards=INT,
+                                        device_indices=TSeq(INT), pipeline_stage=TOpt(INT))),
+                         ("set_pipeline_stage", dict(configuration=TRef("ModelConfiguration"), stage=INT))):
+        t = Target(f"Node.{meth}[effects]", mod=CORE, qual=f"Node.{meth}", self_cls="Node", params=params, requires=[], ensures=[], setup=setup,
+                   raises={"ValueError": ["unchanged_old('Node.device_configurations')", "ir_clean()"]}, raises_default=[], assert_mode="raise")
+        t.local_containers = ("configurations", "specs")
+        t.dead = ["def _normalize_axis"]      # evaluated inside a generator over unmodelled records; a pure helper
+        eng.add_target(t)
